@@ -6,6 +6,7 @@ from sa.deps import Facts, names_in, pseudo
 from sa.loader import AnalysisError, own_nodes
 from sa.model import u, where
 from sa.paths import Enumerator, path_nodes
+from sa.pattern import find_expr, find_stmt, has_expr, has_stmt, match_expr, match_stmt
 
 EJ = 'dataflows.helpers.extended_json'
 
@@ -139,11 +140,11 @@ def check(ctx):
     want = {'dumps': 'CommonJSONEncoder', 'dump': 'CommonJSONEncoder', 'loads': 'CommonJSONDecoder', 'load': 'CommonJSONDecoder'}
     for name, cls in want.items():
         m = ej.methods.get(name)
-        ok = m is not None and "kwargs['cls'] = %s" % cls in u(m.node) and 'json.%s(*args, **kwargs)' % name in u(m.node)
+        ok = m is not None and has_stmt("_kw['cls'] = %s" % cls, m.node) and has_expr('json.%s(*_a, **_kw)' % name, m.node)
         run.check(ok, 'R16', m.where if m else ej.where, ej.qualname + '.' + name, "kwargs['cls'] = %s" % cls,
                   'ejson.%s does not use %s' % (name, cls))
     di = dec.methods.get('__init__')
-    run.check(di is not None and "kwargs['object_hook'] = self.object_hook" in u(di.node), 'R16', dec.where, dec.qualname,
+    run.check(di is not None and has_stmt("_kw['object_hook'] = self.object_hook", di.node), 'R16', dec.where, dec.qualname,
               "object_hook installed", 'the decoder does not install its object_hook')
     # decoder falls through to the raw object only
     rets = [n for n in own_nodes(h.node) if isinstance(n, ast.Return)]
@@ -200,8 +201,9 @@ def check(ctx):
     rd = repo.func('dataflows.processors.unstream:unstream.read')
     rr = repo.func('dataflows.processors.unstream:unstream.res_reader')
     fn = repo.func('dataflows.processors.unstream:unstream.func')
-    body = u(rd.node)
-    ok = 'readline()' in body and 'ejson.loads(line)' in body and ('len(line) > 0' in body or 'if line' in body) and 'return None' in body
+    ok = (has_stmt('_l = _f.readline().strip()', rd.node) or has_stmt('_l = _f.readline()', rd.node)) and \
+        (has_stmt('if len(_l) > 0:\n    return ejson.loads(_l)', rd.node) or has_stmt('if _l:\n    return ejson.loads(_l)', rd.node)) and \
+        has_stmt('return None', rd.node)
     run.check(ok, 'R25', rd.where, rd.qualname, 'readline -> loads, blank -> None', 'the reader does not read one document per line')
     loops = [n for n in own_nodes(rr.node) if isinstance(n, ast.While)]
     ok = len(loops) == 1
